@@ -8,6 +8,10 @@ def _c15(tier):
         {"cfg": "dbg", "harness": "h_arith", "sub": "rational", "cases": n, "max_size": 160, "shards": 5, "budget_ms": 5000},
         {"cfg": "dbg", "harness": "h_arith", "sub": "inf_rational", "cases": n, "max_size": 160, "shards": 5, "budget_ms": 5000},
         {"cfg": "dbg", "harness": "h_arith", "sub": "lin", "cases": n, "max_size": 200, "shards": 6, "budget_ms": 5000},
+        # the same cases and oracles under coverage-guided mutation of the tapes (libFuzzer, engine/pbt_fuzz.h; clang ASan+UBSan build)
+        {"kind": "fuzz", "cfg": "fz", "harness": "fz_arith", "sub": "rational", "cases": 60000 if q else 3000000, "max_size": 256, "shards": 1 if q else 4},
+        {"kind": "fuzz", "cfg": "fz", "harness": "fz_arith", "sub": "inf_rational", "cases": 40000 if q else 2000000, "max_size": 256, "shards": 1 if q else 4},
+        {"kind": "fuzz", "cfg": "fz", "harness": "fz_arith", "sub": "lin", "cases": 40000 if q else 2000000, "max_size": 256, "shards": 1 if q else 4},
     ]
 
 
@@ -17,10 +21,12 @@ PROPS = {
         "rule": "Each case is 1-12 operator applications decoded from a rapidcheck-generated tape (operands: zero, small integers, fractions with "
                 "numerator/denominator up to 2^15, non-reduced and negative-denominator constructor inputs, +-infinity where the operation is defined; "
                 "all binary, compound, mixed I/rational, left/right scalar, unary and comparison operators of rational, inf_rational and lin). "
+                "Three more sub-runs feed the same case decoder and the same oracles from libFuzzer (the fuzzer's bytes are the tape; clang ASan+UBSan build; in-process): coverage feedback "
+                "steers the tapes into the special-case branches of the operators (integer fast paths, infinities, zero coefficients). "
                 "Oracle: GMP exact arithmetic + canonical-form check. Non-trivial: the case contains operands with different denominators > 1, or an infinity, "
                 "or two inf_rationals with non-zero infinitesimal parts, or a lin operation with a non-zero constant on both sides / scaling or negating "
                 "a lin with variables. Distinct: by hash of the rendered operation list.",
-        "technique": "property-based testing (rapidcheck tapes, forked cases) against a GMP reference",
+        "technique": "property-based testing (rapidcheck tapes, forked cases) against a GMP reference, plus coverage-guided fuzzing (libFuzzer) of the same tapes and oracles in-process",
         "level_text": "Randomised search over operand values and all operator forms with an exact reference (GMP) and a canonical-form predicate; "
                       "~10^5 cases per quick run, ~2*10^6 per thorough run; failures shrink to a single operator application. Sampling, not proof: "
                       "a defect confined to one operand pair outside the generated shapes can be missed.",
@@ -181,12 +187,17 @@ def _c16(tier):
         {"cfg": "dbg", "harness": "h_lang", "sub": "lexer", "cases": 8000 if q else 100000, "max_size": 200, "shards": 5, "budget_ms": 10000},
         {"cfg": "dbg", "harness": "h_lang", "sub": "group", "cases": 8000 if q else 100000, "max_size": 200, "shards": 5, "budget_ms": 10000},
         {"cfg": "dbg", "harness": "h_lang", "sub": "accept", "cases": 8000 if q else 100000, "max_size": 250, "shards": 6, "budget_ms": 10000},
+        # the same three sub-checks under coverage-guided mutation of the tapes (libFuzzer, engine/pbt_fuzz.h)
+        {"kind": "fuzz", "cfg": "fz", "harness": "fz_tlang", "sub": "lexer", "cases": 30000 if q else 1500000, "max_size": 400, "shards": 1 if q else 4},
+        {"kind": "fuzz", "cfg": "fz", "harness": "fz_tlang", "sub": "group", "cases": 30000 if q else 1500000, "max_size": 400, "shards": 1 if q else 4},
+        {"kind": "fuzz", "cfg": "fz", "harness": "fz_tlang", "sub": "accept", "cases": 30000 if q else 1500000, "max_size": 500, "shards": 1 if q else 4},
     ]
 
 
 PROPS["C16"] = {
     "runs": _c16,
-    "rule": "Three parser-level sub-checks (evaluation of constant expressions is checked on solved programs, see the eval sub-run when present). lexer: 1-30 tokens over every keyword, "
+    "rule": "(The three parser-level sub-checks also run as libFuzzer targets: the fuzzer's bytes are the tape, same decoders and oracles, clang ASan+UBSan build.) "
+            "Three parser-level sub-checks (evaluation of constant expressions is checked on solved programs, see the eval sub-run when present). lexer: 1-30 tokens over every keyword, "
             "operator, punctuation, identifiers shaped like keyword prefixes / extensions / one-letter variants, integer, real (d+.d+ and .d+) and string literals with escapes, rendered "
             "with random legal separators (blanks, tabs, CR/LF, line and block comments) or none where unambiguous; the lexer must return exactly the kinds and payloads written. "
             "group: 1-3 random expression trees over all unary / binary / n-ary operators, casts, constructor and function calls, printed with minimal and with redundant parentheses "
